@@ -25,7 +25,10 @@ NICKS = ["Axi", " Axi ", "A B", "0123456789abcdef", "", "   ", "x",
          # a full-length (16 character) name behind leading / trailing blanks
          "  0123456789abcdef", "\t NextDraw 8511-AB ", "   0123456789abcde  ",
          # names that contain the letters of the firmware's error marker (but not "Err:")
-         "Sherry", "BERRY-2", "error", "Err"]
+         "Sherry", "BERRY-2", "error", "Err",
+         # names made of the protocol's own vocabulary: the product name and its abbreviation
+         # (the version banner contains them), a banner, an acknowledgement, command names
+         "EBB-2", "MyEBB", "EiBotBoard", "EBBv13 Firmware", "OK", "ST", "QT,Axi", "v"]
 
 
 def clamp(res):
